@@ -18,9 +18,11 @@ def build_case(r, name, meta, tup, ff, md, sp, cosmo, n=6, override=True, delta=
     nu2 = (dc / sigma) ** 2
     m = 10 ** np.array([r.uniform(9, 16) for _ in range(n)])
     neff = np.array([r.uniform(-2.9, -0.1) for _ in range(n)])
-    delta = r.choice([200, 300, 400, 600, 800, 1200, 1600, 2400, 3200, 250.0, 500.0, 1000.0, 2000.5, 210.3]) if delta is None else delta
+    delta = r.choice([200, 300, 400, 600, 800, 1200, 1600, 2400, 3200, 250.0, 500.0, 1000.0, 2000.5, 210.3, 200.5, 400.97, 1600.3, 800.999]) if delta is None else delta   # also strictly inside (d, d+1) above a tabulated d
+    if getattr(build_case, "force_delta", None) is not None:
+        delta = build_case.force_delta
     mdef = md.SOMean(overdensity=delta)
-    if delta is not None and getattr(build_case, "vary_definition", False) and r.random() < 0.35:
+    if delta is not None and getattr(build_case, "vary_definition", False) and getattr(build_case, "force_delta", None) is None and r.random() < 0.35:
         # other definitions and a cosmology that differs from the library default: the overdensity the fit sees then depends on the
         # instance's own cosmology and redshift
         mdef = r.choice([md.SOCritical(overdensity=float(r.choice([200, 300, 500.0]))), md.SOVirial()])
@@ -123,6 +125,7 @@ def run(ctx):
             for rep_ in range(reps):
                 build_case.vary_definition = name in ("Tinker08", "Tinker10", "Behroozi", "Watson")
                 build_case.force_none = rep_ == 0          # the meaningful None (automatic amplitude) at least once per fit that has it
+                build_case.force_delta = [200.5, 400.97][rep_] if (rep_ < 2 and name in ("Tinker08", "Tinker10", "Behroozi")) else None
                 try:
                     obj, env, calls, desc, env_for = build_case(r, name, meta, tup, ff, md, sp, Planck15)
                 except Exception as e:
